@@ -179,6 +179,14 @@ def run(ctx):
         ctx.case(("zoo3", k))
         writers_agree(ctx, obj, xctx, {"model": type(obj).__name__, "obj": repr(obj)[:1500], "mixed": True},
                       ns_map=zoo.HOSTILE_MAPS[k % len(zoo.HOSTILE_MAPS)])
+        # ... and the document of every third instance through both handlers from every kind of source
+        if (k % 3 == 0 or type(obj) in (zoo.UnionModels, zoo.UnionEl, zoo.SameName)) and type(obj) not in (zoo.Wild, zoo.Order):
+            try:
+                text = rb.render(obj, xctx, "native")
+            except Exception:  # noqa: BLE001
+                continue
+            f14 = ["F14"] if "xmlns:" in text.split(">", 1)[1] or type(obj) in (zoo.QNames, zoo.Prims, zoo.UnionEl) else []
+            handlers_agree(ctx, text, type(obj), xctx, {"key": ("zoo", k), "model": type(obj).__name__}, tags_native_tree=f14)
 
 
 def replay(ctx, doc):
